@@ -107,8 +107,11 @@ type FaultReader struct {
 	FailAt int
 	Err    error
 	Max    int // max bytes per Read (0 = unlimited)
-	pos    int
-	Fired  int
+	// WithData: the Read that delivers the last byte before the failure
+	// returns it together with Err (n > 0, err != nil), as io.Reader allows.
+	WithData bool
+	pos      int
+	Fired    int
 }
 
 func (r *FaultReader) Read(p []byte) (int, error) {
@@ -137,6 +140,10 @@ func (r *FaultReader) Read(p []byte) (int, error) {
 	}
 	copy(p, r.Data[r.pos:r.pos+n])
 	r.pos += n
+	if r.WithData && r.pos == lim && r.FailAt <= len(r.Data) {
+		r.Fired++
+		return n, r.Err
+	}
 	return n, nil
 }
 
